@@ -42,6 +42,8 @@ func main() {
 		famC11(g, o, *n, *thorough)
 	case "c13":
 		famC13(g, o, *n, *thorough)
+	case "c07":
+		famC07(g, o, *n, *thorough)
 	case "c04":
 		famC04(g, o, *n, *thorough)
 	case "c03":
